@@ -15,7 +15,11 @@ immediately before and after the call; (2) the second call returns the same valu
 (3) the whole history with injections yields the same transcript, notifications, external calls and final \
 view as the history without them; (4) unknown/empty names are refused without change (shared with C09). \
 Non-trivial = an injection at a point with pending output text, or >= 1 pending choice, or call-stack depth \
-> 1 / several flows; distinct = hash(program, history, position).";
+> 1 / several flows; distinct = hash(program, history, position). Second leg (reference model): programs of C01's domain are played in lockstep by the story and by the \
+reference interpreter of C01 (harness/src/refint.rs); at every stop functions that are pure by inspection of the AST \
+(no assignment to a global or through a reference, no sequence, no call of an impure function) are evaluated on both \
+sides with generated integer arguments: the returned value (typed) and the printed text must equal the \
+reference's, and later turns must still agree.";
 
 fn profile() -> Profile {
     Profile {
@@ -167,7 +171,7 @@ pub fn run(env: &Env) -> i32 {
     rep.assumptions = vec![
         "purity is by construction of the generator (functions assign no global, no sequences/RANDOM/read counts inside)".into(),
         "visit counts of the evaluated function and of functions it calls are excluded from the comparison, as the property allows".into(),
-        "the value/text a function returns is checked for repeatability here; its correctness against the language rules is C01's subject".into(),
+        "leg 1 checks the value/text a function returns for repeatability; leg 2 checks it against the reference interpreter (trailing blanks of the printed text are not compared; nothing is evaluated behind an error)".into(),
     ];
     if let Some(p) = &env.replay {
         return match load_replay_case(p) {
@@ -234,5 +238,156 @@ pub fn run(env: &Env) -> i32 {
         },
     );
     rep.absorb(r);
+    // leg 2: the value and the text an evaluation returns, against the reference interpreter
+    let n2 = env.cases(3000, 60000);
+    let r = run_cases(
+        env,
+        2,
+        n2,
+        || case_strategy(1500, 40),
+        |gc: &GenCase, acc: &mut Acc| model_leg(gc, acc),
+    );
+    rep.absorb(r);
     finish(env, rep)
 }
+
+/// a function whose evaluation changes nothing the story can see later: no assignment to a
+/// global or through a reference, no sequence (its position is state), no call of a function
+/// that is not pure itself
+fn pure_functions(p: &crate::ast::Program) -> Vec<String> {
+    use crate::ast::*;
+    fn inl_pure(v: &[Inline], pure: &[String]) -> bool {
+        v.iter().all(|i| match i {
+            Inline::Text(_) | Inline::Glue => true,
+            Inline::Expr(e) => expr_pure(e, pure),
+            Inline::Cond(c, a, b) => expr_pure(c, pure) && inl_pure(a, pure) && inl_pure(b, pure),
+            Inline::Seq(..) => false,
+        })
+    }
+    fn expr_pure(e: &Expr, pure: &[String]) -> bool {
+        let mut ok = true;
+        e.walk(&mut |x| match x {
+            Expr::Call(f, _) if f != "MIN" && f != "MAX" && !pure.contains(f) => ok = false,
+            Expr::Random(..) => ok = false,
+            _ => {}
+        });
+        ok
+    }
+    fn stmts_pure(v: &[Stmt], f: &Function, pure: &[String], globals: &[String]) -> bool {
+        v.iter().all(|s| match s {
+            Stmt::Line(l) => l.divert.is_none() && inl_pure(&l.parts, pure),
+            Stmt::TempDecl(_, e) => expr_pure(e, pure),
+            Stmt::Assign(n, e) | Stmt::AssignOp(n, _, e) => !globals.contains(n) && !f.params.iter().any(|p| p == &format!("ref {n}")) && expr_pure(e, pure),
+            Stmt::Call(g, args) => pure.contains(g) && args.iter().all(|a| expr_pure(a, pure)),
+            Stmt::Return(e) => e.as_ref().map(|e| expr_pure(e, pure)).unwrap_or(true),
+            Stmt::If(br, els) => br.iter().all(|(c, b)| expr_pure(c, pure) && stmts_pure(b, f, pure, globals)) && els.as_ref().map(|b| stmts_pure(b, f, pure, globals)).unwrap_or(true),
+            Stmt::Switch(_, cases, els) => cases.iter().all(|(_, b)| stmts_pure(b, f, pure, globals)) && els.as_ref().map(|b| stmts_pure(b, f, pure, globals)).unwrap_or(true),
+            _ => false,
+        })
+    }
+    let globals: Vec<String> = p.globals.iter().map(|g| g.name.clone()).collect();
+    let mut pure: Vec<String> = vec![];
+    // functions only call functions of higher index: decide from the last one backwards
+    for f in p.functions.iter().rev() {
+        if !f.params.iter().any(|p| p.starts_with("ref ")) && stmts_pure(&f.body, f, &pure, &globals) {
+            pure.push(f.name.clone());
+        }
+    }
+    pure
+}
+
+fn model_leg(gc: &GenCase, acc: &mut Acc) -> Result<(), Fail> {
+    use crate::c01::{TStop, model_turn, real_turn, show_turn, turns_agree};
+    use crate::refint::{self, Machine, Val};
+    let prof = crate::c01::profile();
+    let prog = crate::pgen::gen_program(&gc.prog, &prof);
+    let pure = pure_functions(&prog);
+    if pure.is_empty() {
+        acc.discard("no_pure_function");
+        return Ok(());
+    }
+    let src = prog.to_ink();
+    let Ok((json_text, meta)) = compile_src(&src) else {
+        acc.discard("compile_error");
+        return Ok(());
+    };
+    let case = json!({"kind": "model", "prog_tape": gc.prog, "hist_tape": gc.hist, "source": src});
+    let lw = refint::lower(&prog);
+    let mut t = Tape::new(&gc.hist);
+    let cfg = HostCfg { bind_externals: None, ..HostCfg::default() };
+    let r = guard(|| -> Result<Option<(String, String)>, String> {
+        let mut h = Host::new(&json_text, meta.clone(), &cfg).map_err(|e| e.to_string())?;
+        let mut m = Machine::new(&lw).map_err(|e| format!("model: {e}"))?;
+        let mut evaluated = 0;
+        for _turn in 0..6 {
+            let a = real_turn(&mut h);
+            let Some(b) = model_turn(&mut m) else { return Ok(None) };
+            if h.fuel_exhausted() {
+                return Ok(None);
+            }
+            if !turns_agree(&a, &b) {
+                if evaluated == 0 {
+                    // not this property's subject (C01 decides plain play)
+                    return Ok(None);
+                }
+                return Ok(Some(("eval-disturbs-later-play".into(), format!("after {evaluated} evaluations the story and the reference part ways: story {} | reference {}", show_turn(&a), show_turn(&b)))));
+            }
+            // (an error stops the story until it is reset: nothing is evaluated behind one)
+            if a.stop == TStop::Error {
+                break;
+            }
+            // evaluate one or two pure functions at this boundary, on both sides
+            for _ in 0..1 + t.pick(2) {
+                let fname = &pure[t.pick(pure.len())];
+                let f = prog.functions.iter().find(|f| &f.name == fname).unwrap();
+                let ints: Vec<i32> = f.params.iter().map(|_| t.range(0, 9)).collect();
+                let args: Vec<bladeink::value_type::ValueType> = ints.iter().map(|i| bladeink::value_type::ValueType::Int(*i)).collect();
+                let mut text = String::new();
+                let rv = h.story.evaluate_function(fname, if args.is_empty() { None } else { Some(&args) }, &mut text);
+                let mv = m.eval_function(fname, &ints.iter().map(|i| Val::I(*i)).collect::<Vec<_>>());
+                evaluated += 1;
+                match (rv, mv) {
+                    (Ok(v), Ok((mval, mtext))) => {
+                        let got = render_opt_value(&v);
+                        let want = mval.render();
+                        if got != want {
+                            return Ok(Some(("eval-value-differs".into(), format!("evaluate_function({fname}, {ints:?}) returned {got}, the reference says {want}"))));
+                        }
+                        if text.trim_end() != mtext.trim_end() {
+                            return Ok(Some(("eval-text-differs".into(), format!("evaluate_function({fname}, {ints:?}) printed {text:?}, the reference says {mtext:?}"))));
+                        }
+                    }
+                    (Err(e), Ok(_)) => {
+                        return Ok(Some(("eval-refused".into(), format!("evaluate_function({fname}, {ints:?}) failed: {e}"))));
+                    }
+                    (_, Err(_)) => return Ok(None),
+                }
+            }
+            match &a.stop {
+                TStop::Choices(c) => {
+                    let k = t.pick(c.len());
+                    h.apply(&HostOp::Choose(k));
+                    if m.choose(k).is_err() {
+                        return Ok(None);
+                    }
+                }
+                _ => break,
+            }
+        }
+        acc_note(evaluated);
+        Ok(None)
+    });
+    acc.eval();
+    match r {
+        Err(p) => Err(panic_fail(&p, "evaluate_function against the reference", &case)),
+        Ok(Err(_)) => Ok(()),
+        Ok(Ok(None)) => {
+            acc.class("model_leg_case");
+            acc.nontrivial(fnv(&format!("{}{:?}", src, gc.hist)));
+            Ok(())
+        }
+        Ok(Ok(Some((key, msg)))) => Err(Fail::violation(key, msg, case)),
+    }
+}
+
+fn acc_note(_n: usize) {}
